@@ -360,7 +360,7 @@ fn arb_many_segs() -> impl Strategy<Value = Vec<Seg>> {
 
 fn run(args: &Args, rep: &mut Report) {
     let tier = args.tier;
-    rep.assume("styles accumulated over several sequences, 256-colour/RGB colours, bold+dim in one sequence and zero-padded parameters are outside the explored domain (open findings F12, F13, F15, F27 - all in the cansi parser - replayed as fixed inputs)");
+    rep.assume("styles accumulated over several sequences, 256-colour/RGB colours, bold+dim in one sequence, zero-padded parameters and non-SGR sequences (OSC, ESC x) are outside the explored domain (open findings F12, F13, F15, F27, F31 - all in the cansi parser - replayed as fixed inputs)");
     // exhaustive single segment
     let n = rt::workers();
     let accs = rt::par(n, |w| {
